@@ -39,10 +39,10 @@ ASSUMPTIONS = ['vf.ref.der, vf.ref.sm4_small and hashlib (sm3, pbkdf2_hmac) are 
 STALL_S = 900
 
 # mutant classes judged wherever they occur (they concern a length, an INTEGER or a BOOLEAN - kinds the property names -
-# or exact consumption); 'trailing-inside' is judged for the listed composite kinds only (signatures, ciphertexts, keys):
+# or reading past the input); 'trailing-*' is judged for the listed composite kinds only (signatures, ciphertexts, keys):
 # lossy accessors such as x509_uri_as_distribution_point_from_der are allowed to skip what they do not return
 JUDGED_CLASSES = ('length-long-form', 'length-leading-zero', 'length-indefinite', 'integer-padded', 'integer-negative',
-                  'integer-empty', 'boolean-bad', 'trailing-outside', 'truncated')
+                  'integer-empty', 'boolean-bad', 'truncated')
 
 
 # =====================================================================================================
@@ -2681,8 +2681,12 @@ def u_algid(ctx, u):
         return r, ('sm2encrypt' if o.value == pke else o.value, n.value)
     C = LC('x509_public_key_encryption_algor', 'x509_public_key_encryption_algor_from_der',
            lambda ctx, v: enc(ctx, 'x509_public_key_encryption_algor_to_der', pke), p_dec,
-           lambda v: _null_optional([1, 2, 156, 10197, 1, 301, 3])[0], eqf=lambda v, g: g == ('sm2encrypt', 0))
+           lambda v: (D.sequence(D.oid(OID_SM2 + [3])), D.sequence(D.oid(OID_SM2 + [2]))), eqf=lambda v, g: g == ('sm2encrypt', 0))
     encs = rt_all(ctx, C, ['sm2encrypt'])
+    # GM/T 0006 numbers SM2-1 signature .301.1, SM2-2 key exchange .301.2, SM2-3 encryption .301.3; which arc the
+    # library calls "sm2encrypt" is logged, not judged (the property is about encodings, not about OID assignments)
+    if encs:
+        ctx.stat('info_sm2encrypt_oid_last_arc_%d' % D.dec_oid(D.one(D.one(encs[0], 0x30), 6))[-1])
     offer_all(ctx, C, encs, 10, per_class=8)
     # subject public key algorithm: ecPublicKey + named curve, rsaEncryption + NULL
     ec = lib.x509_public_key_algor_from_name(b'ecPublicKey')
@@ -2993,8 +2997,11 @@ def display_text(rng, mx=200):
     return 30, ''.join(chr(rng.randrange(0x100, 0xD000)) for _ in range(max(1, n // 2))).encode('utf-16-be')
 
 
+URI_LENS = [(1, 10, 60, 117, 118, 119, 150)]
+
+
 def uri(rng):
-    return ('http://' + ''.join(rng.choice('abcdefghijklmnopqrstuvwxyz0123456789.-/') for _ in range(rng.choice((1, 10, 60, 117, 118, 119, 150))))).encode()
+    return ('http://' + ''.join(rng.choice('abcdefghijklmnopqrstuvwxyz0123456789.-/') for _ in range(rng.choice(URI_LENS[0])))).encode()
 
 
 def shw(v):
@@ -3482,6 +3489,7 @@ def u_exts(ctx, u):
     ext_id = {nm: lib.x509_ext_id_from_name(nm.encode()) for nm in EXT_OIDS}
     kp = {nm: lib.x509_key_purpose_from_name(nm.encode()) for nm in KP}
     rounds = 40 if thorough(ctx) else 12
+    URI_LENS[0] = (1, 10, 30, 44)       # the builders assemble values in fixed 256/512-octet scratch buffers and refuse more
 
     def gen(nm):
         C, g, _ = cs[nm]
@@ -3648,6 +3656,7 @@ def u_exts(ctx, u):
                   got=hx(buf.raw(min(ln.value, len(want))), 200), want=hx(want, 200))
         buf.free()
     k.free()
+    URI_LENS[0] = (1, 10, 60, 117, 118, 119, 150)
     ctx.sample({'kind': 'exts', 'rounds': rounds})
 
 
